@@ -248,3 +248,24 @@ package quotaresource
 //@   ensures[configured-expiry] result1 == nil && providerCfg.Strategy.Concurrent.RequestExpirationSec != 0 ==> result0.(*concurrentStrategy).requestExpireTime == providerCfg.Strategy.Concurrent.RequestExpirationSec * 1000000000
 //@   ensures[configured-sweep] result1 == nil && providerCfg.Strategy.Concurrent.GCIntervalSec != 0 ==> result0.(*concurrentStrategy).gcInterval == providerCfg.Strategy.Concurrent.GCIntervalSec * 1000000000
 //@   ensures[starts-empty] result1 == nil ==> result0.(*concurrentStrategy).allowedReq != nil && forall(r, string, !in(r, result0.(*concurrentStrategy).allowedReq))
+
+// ---------------------------------------------------------------- C01: the configured window length and maximum are the ones enforced
+//@ ghost func windowOfUnit(unit string, interval int64) int64 = ite(unit == "second", interval * 1000000000, ite(unit == "minute", interval * 60000000000, ite(unit == "hour", interval * 3600000000000, ite(unit == "day", interval * 86400000000000, interval * 2592000000000000))))
+//@ ghost func unitOK(unit string) bool = unit == "second" || unit == "minute" || unit == "hour" || unit == "day" || unit == "month"
+//@ func (*QuotaLimit).ParseWindow
+//@   prop C01
+//@   inline
+//@   requires ql != nil && unitOK(ql.IntervalUnit)
+//@   modifies nothing
+//@   ensures[window-length] result == windowOfUnit(ql.IntervalUnit, ql.Interval)
+
+//@ pure contextManager.Get
+//@ pure ContextManager.GetClock
+//@ func newTransactionalFixedWindow
+//@   prop C01
+//@   requires providerCfg != nil && providerCfg.Strategy != nil && providerCfg.Strategy.FixedWindow != nil && unitOK(providerCfg.Strategy.FixedWindow.IntervalUnit)
+//@   allocates fixedWindow, map, contextMemory, memoryState, QuotaLimit
+//@   modifies nothing
+//@   ensures[configured-maximum-and-window] result != nil && result.max == providerCfg.Strategy.FixedWindow.Max && result.window == windowOfUnit(providerCfg.Strategy.FixedWindow.IntervalUnit, providerCfg.Strategy.FixedWindow.Interval) && result.quotaID == providerCfg.ID && result.parent == parent && result.filter == providerCfg.Filter
+//@   ensures[group-by-its-own-header] result.groupByKey == ite(providerCfg.Strategy.FixedWindow.GroupByHeader == "", DefaultGroup, providerCfg.Strategy.FixedWindow.GroupByHeader)
+//@   ensures[starts-empty] result.quotaGroups != nil && forall(k, string, !in(k, result.quotaGroups))
